@@ -11,14 +11,21 @@ SUGAR_PHOSPHATE = ["P", "OP1", "OP2", "O5'", "C5'", "C4'", "O4'", "C3'", "O3'", 
 PURINE = ["N9", "C8", "N7", "C5", "C6", "O6", "N1", "C2", "N2", "N3", "C4"]
 PYRIMIDINE = ["N1", "C2", "O2", "N3", "C4", "N4", "C5", "C6"]
 HYDROGENS = ["H5'", "H5''", "H4'", "H3'", "HO2'", "H2'", "H1'", "H8", "H1", "H21", "H22", "HO5'", "1H5'", "2H5'", "1H2", "2HO'", "H", "3HB"]
-IONS = [("MG", "MG", 2), ("NA", "NA", 1), ("CL", "CL", -1), ("ZN", "ZN", 2), ("FE", "FE", 3), ("K", "K", 1), ("CA", "CA", 2), ("MN", "MN", 2)]
+# (residue/atom name, element symbol as written, charge): two-letter symbols in both spellings found in the wild ("MG" and "Mg")
+IONS = [("MG", "Mg", 2), ("NA", "NA", 1), ("CL", "Cl", -1), ("ZN", "ZN", 2), ("FE", "Fe", 3), ("K", "K", 1), ("CA", "CA", 2), ("MN", "Mn", 2)]
 CHAIN_POOL = list("ABCDEFGHIJKLMNOPQRSTUVWXYZabcdefghijklmnopqrstuvwxyz0123456789")
 SPECIAL_COORD = [0.0, 0.0, -999.999, 9999.999, -100.0, -100.001, 1000.0, 999.999, -0.001, 0.001, -99.999, 1234.567, -104.518]
 
 
 def element_of(name):
     s = name.lstrip("0123456789")
+    if name in ("MG", "NA", "ZN", "CL", "MN", "FE", "CA", "CO", "CU", "BR", "SE", "NI", "CD", "SR", "BA", "PT", "HG"):
+        # two-letter symbols as modelling programs write them: second letter lower case in about half of the tables
+        return name if (sum(map(ord, name)) + _ELEMENT_CASE[0]) % 2 else name[0] + name[1].lower()
     return s[:1].upper() if s else "X"
+
+
+_ELEMENT_CASE = [0]
 
 
 def coord(rng, centre, spread):
